@@ -8,6 +8,7 @@ import Mathlib.Tactic.FieldSimp
 import Mathlib.Tactic.Ring
 import Mathlib.Tactic.Linarith
 import Mathlib.Tactic.NormNum
+import Mathlib.Tactic.Positivity
 
 open Matrix Finset BigOperators
 
@@ -257,6 +258,92 @@ theorem pair_sign (hr : IsSqrt r) (x y : K) :
     · rw [if_pos (mul_neg_of_pos_of_neg hx0 hy0), abs_of_neg hy0, neg_neg]
     · subst hy0; simp
     · rw [if_neg (not_lt.2 (mul_pos hx0 hy0).le), abs_of_pos hy0]
+
+/-- the extraction of the repaired `o_to_pgl` recovers `±[[a,b],[c,d]]` from the Sym² matrix
+as soon as its middle row is non-zero (always the case when `ad - bc ≠ 0`) -/
+theorem extract_spec (hr : IsSqrt r) (M : Matrix (Fin 3) (Fin 3) K) (a b c d : K)
+    (h22 : M 2 2 = a ^ 2) (h20 : M 2 0 = b ^ 2) (h02 : M 0 2 = c ^ 2) (h00 : M 0 0 = d ^ 2)
+    (h21 : M 2 1 = a * b) (h01 : M 0 1 = c * d) (h10 : M 1 0 = 2 * b * d)
+    (h11 : M 1 1 = a * d + b * c) (h12 : M 1 2 = 2 * a * c)
+    (hN : 0 < (2 * b * d) ^ 2 + (a * d + b * c) ^ 2 + (2 * a * c) ^ 2) :
+    extract r M = !![a, b; c, d] ∨ extract r M = !![-a, -b; -c, -d] := by
+  unfold extract
+  simp only [h22, h20, h02, h00, h21, h01, h10, h11, h12]
+  rcases pair_sign hr a b with ⟨ha, hb⟩ | ⟨ha, hb⟩ <;>
+  rcases pair_sign hr c d with ⟨hc, hd⟩ | ⟨hc, hd⟩ <;>
+  rw [ha, hb, hc, hd]
+  · left
+    rw [if_neg]
+    nlinarith [hN]
+  · left
+    rw [if_pos]
+    · simp
+    · nlinarith [hN]
+  · right
+    rw [if_pos]
+    nlinarith [hN]
+  · right
+    rw [if_neg]
+    nlinarith [hN]
+
+theorem middle_row_pos (a b c d : K) (h : a * d - b * c ≠ 0) :
+    0 < (2 * b * d) ^ 2 + (a * d + b * c) ^ 2 + (2 * a * c) ^ 2 := by
+  have h0 : 0 ≤ (2 * b * d) ^ 2 + (a * d + b * c) ^ 2 + (2 * a * c) ^ 2 := by positivity
+  rcases h0.lt_or_eq with h1 | h1
+  · exact h1
+  · exfalso
+    have e1 : (2 * b * d) ^ 2 = 0 := by nlinarith [sq_nonneg (2 * b * d), sq_nonneg (a * d + b * c), sq_nonneg (2 * a * c)]
+    have e2 : (a * d + b * c) ^ 2 = 0 := by nlinarith [sq_nonneg (2 * b * d), sq_nonneg (a * d + b * c), sq_nonneg (2 * a * c)]
+    have e3 : (2 * a * c) ^ 2 = 0 := by nlinarith [sq_nonneg (2 * b * d), sq_nonneg (a * d + b * c), sq_nonneg (2 * a * c)]
+    have f1 : b * d = 0 := by
+      have := pow_eq_zero_iff (n := 2) (by norm_num) |>.1 e1
+      have h2 : (2 : K) ≠ 0 := two_ne_zero
+      have : 2 * (b * d) = 0 := by rw [← this]; ring
+      exact (mul_eq_zero.1 this).resolve_left h2
+    have f2 : a * d + b * c = 0 := pow_eq_zero_iff (n := 2) (by norm_num) |>.1 e2
+    have f3 : a * c = 0 := by
+      have := pow_eq_zero_iff (n := 2) (by norm_num) |>.1 e3
+      have h2 : (2 : K) ≠ 0 := two_ne_zero
+      have : 2 * (a * c) = 0 := by rw [← this]; ring
+      exact (mul_eq_zero.1 this).resolve_left h2
+    have g : (a * d - b * c) ^ 2 = 0 := by
+      have : (a * d - b * c) ^ 2 = (a * d + b * c) ^ 2 - 4 * (a * c) * (b * d) := by ring
+      rw [this, f2, f1]; ring
+    exact h (pow_eq_zero_iff (n := 2) (by norm_num) |>.1 g)
+
+
+theorem oToPglAd_neg {K : Type*} [Field K] (S : Matrix (Fin 3) (Fin 3) K) : oToPglAd (-S) = -oToPglAd S := by
+  unfold oToPglAd
+  simp only [Matrix.mul_neg, Matrix.neg_mul]
+
+/-- the sign normalisation leaves `sl2_irrep(A,3)` alone and undoes a global minus sign -/
+theorem normSign_irrep (A : Matrix (Fin 2) (Fin 2) K) :
+    normSign (sl2Irrep 3 A) = sl2Irrep 3 A := by
+  unfold normSign
+  rw [if_neg]
+  rw [sl2Irrep_three]
+  simp only [Matrix.of_apply, Matrix.cons_val', Matrix.cons_val_zero, Matrix.cons_val_two,
+    Matrix.head_cons, Matrix.tail_cons, Matrix.empty_val', Matrix.cons_val_fin_one]
+  have := sq_nonneg (A 0 0); have := sq_nonneg (A 0 1); have := sq_nonneg (A 1 0); have := sq_nonneg (A 1 1)
+  intro h
+  simp at h
+  linarith
+
+theorem normSign_neg_irrep (A : Matrix (Fin 2) (Fin 2) K) (h : A.det ≠ 0) :
+    normSign (-sl2Irrep 3 A) = sl2Irrep 3 A := by
+  unfold normSign
+  rw [if_pos, neg_neg]
+  rw [sl2Irrep_three]
+  simp only [Matrix.neg_apply, Matrix.of_apply, Matrix.cons_val', Matrix.cons_val_zero, Matrix.cons_val_two,
+    Matrix.head_cons, Matrix.tail_cons, Matrix.empty_val', Matrix.cons_val_fin_one]
+  have h0 := sq_nonneg (A 0 0); have h1 := sq_nonneg (A 0 1); have h2 := sq_nonneg (A 1 0); have h3 := sq_nonneg (A 1 1)
+  by_contra hc
+  simp at hc
+  have e0 : A 0 0 ^ 2 = 0 := by linarith
+  have e1 : A 0 1 ^ 2 = 0 := by linarith
+  apply h
+  rw [Matrix.det_fin_two, pow_eq_zero_iff (two_ne_zero) |>.1 e0, pow_eq_zero_iff (two_ne_zero) |>.1 e1]
+  ring
 
 end order
 
